@@ -779,6 +779,31 @@ pub(crate) fn get_handler<'a, State>(
     None
 }
 
+/// Verification hook: the position of the route `get_handler` selects, as `(Some(i), j)` for route `j` of host
+/// sub-app `i`, or `(None, j)` for route `j` of the default sub-app.
+#[cfg(humphrey_verif)]
+pub fn verif_route_index<State>(
+    request: &Request,
+    subapps: &[SubApp<State>],
+    default_subapp: &SubApp<State>,
+) -> Option<(Option<usize>, usize)> {
+    let handler = get_handler(request, subapps, default_subapp)?;
+
+    for (i, subapp) in subapps.iter().enumerate() {
+        for (j, route) in subapp.routes.iter().enumerate() {
+            if std::ptr::eq(route, handler) {
+                return Some((Some(i), j));
+            }
+        }
+    }
+
+    default_subapp
+        .routes
+        .iter()
+        .position(|route| std::ptr::eq(route, handler))
+        .map(|j| (None, j))
+}
+
 /// Calls the correct WebSocket handler for the given request.
 fn call_websocket_handler<State>(
     request: &Request,
